@@ -102,6 +102,8 @@ func handleReq(kind string, f []string, home string) string {
 		return implEval(unhx(f[0]), termToGV(parseTerm(f[1])))
 	case "hist":
 		return implHist(unhx(f[0]), parseTerm(f[1]), f[2:], home)
+	case "conc":
+		return implConc(unhx(f[0]), parseTerm(f[1]), f[2:], home)
 	}
 	return "BADKIND"
 }
@@ -346,4 +348,87 @@ func implOp(op *term, tpl **textwire.Template, cwd string) string {
 		return "OK " + hxOut(out)
 	}
 	return "BADOP"
+}
+
+// ---- concurrency workloads (this code is meaningful in the binary built with -race)
+
+// implConc: fields after cwd and fs: G, rounds, gomaxprocs, then the operations. Operations
+// before the marker "--" are set-up (NewTemplate, Register*) and run once; the others are run
+// sequentially for a baseline and then by G goroutines at the same time.
+func implConc(cwd string, fsT *term, f []string, home string) string {
+	G, _ := strconv.Atoi(f[0])
+	rounds, _ := strconv.Atoi(f[1])
+	procs, _ := strconv.Atoi(f[2])
+	ops := f[3:]
+	old := runtime.GOMAXPROCS(procs)
+	defer runtime.GOMAXPROCS(old)
+	os.RemoveAll(cwd)
+	os.MkdirAll(cwd, 0o755)
+	defer func() {
+		os.Chdir(home)
+		os.RemoveAll(cwd)
+	}()
+	for _, e := range fsT.list {
+		if len(e.list) >= 3 && e.list[1].atom == "f" {
+			p := filepath.Join(cwd, unhx(e.list[0].atom))
+			os.MkdirAll(filepath.Dir(p), 0o755)
+			os.WriteFile(p, []byte(unhx(e.list[2].atom)), 0o644)
+		}
+	}
+	os.Chdir(cwd)
+	textwire.VerifReset()
+	var tpl *textwire.Template
+	i := 0
+	for ; i < len(ops) && ops[i] != "--"; i++ {
+		if r := implOp(parseTerm(ops[i]), &tpl, cwd); strings.HasPrefix(r, "NEWERR") || strings.HasPrefix(r, "REGERR") {
+			return "CONC setup failed: " + r
+		}
+	}
+	var work []*term
+	for i++; i < len(ops); i++ {
+		work = append(work, parseTerm(ops[i]))
+	}
+	base := make([]string, len(work))
+	for k, w := range work {
+		base[k] = safely(func() string { return implOp(w, &tpl, cwd) })
+	}
+	type bad struct {
+		k         int
+		got, want string
+	}
+	errs := make(chan bad, G)
+	done := make(chan struct{})
+	n := 0
+	for gI := 0; gI < G; gI++ {
+		go func(gI int) {
+			defer func() { done <- struct{}{} }()
+			for r := 0; r < rounds; r++ {
+				for j := range work {
+					k := (j + gI) % len(work)
+					t := tpl
+					got := safely(func() string { return implOp(work[k], &t, cwd) })
+					if got != base[k] {
+						select {
+						case errs <- bad{k, got, base[k]}:
+						default:
+						}
+						return
+					}
+					if (r+j+gI)%3 == 0 {
+						runtime.Gosched()
+					}
+				}
+			}
+		}(gI)
+	}
+	for gI := 0; gI < G; gI++ {
+		<-done
+		n++
+	}
+	select {
+	case b := <-errs:
+		return fmt.Sprintf("CONC mismatch op=%d got=%s want=%s", b.k, b.got, b.want)
+	default:
+	}
+	return fmt.Sprintf("CONC ok goroutines=%d ops=%d rounds=%d", G, len(work), rounds)
 }
